@@ -53,9 +53,53 @@ def run_impl(case):
                 r.read(buf, st)
                 o["read_data"] = [codec.enc_val(v) for v in r.data]
                 o["tell_read"] = buf.tell()
-        return {"regs": out}
+            res = {"regs": out}
+            if case.get("file_route"):
+                res["file_route"] = file_route(case, classes, buf.getvalue(), out)
+        return res
     except Exception as e:
         return codec.enc_exc(e)
+
+
+def file_route(case, classes, content, out):
+    """the same stream re-read through RegisterFile.read(content, linesize) (argument positional or
+    by keyword, forwarded to every Register.read): when every written record is claimed first by its
+    own class, the file must hold the same registers with the same data"""
+    from cfinterface.components.defaultregister import DefaultRegister
+    from cfinterface.files.registerfile import RegisterFile
+
+    st = case["storage"]
+    used = []
+    for it in case["items"]:
+        if classes[it["def"]] not in used:
+            used.append(classes[it["def"]])
+    pos = 0
+    for it, o in zip(case["items"], out):
+        # what the file reader shows the classes: `linesize` bytes from the record's start in
+        # binary storage (possibly running into the next record), the record's line in text
+        w = content[pos : pos + case["file_route"]["linesize"]] if st == "BINARY" else content[pos : o["tell_write"]]
+        pos = o["tell_write"]
+        try:
+            first = next((c for c in used if c.matches(w, st)), None)
+        except Exception:
+            # another class's identifier window falls on this record's binary data: not a stream the
+            # file reader can dispatch (outside the property's wording, which is about own records)
+            return {"skipped": "another declared class cannot even test this record"}
+        if first is not classes[it["def"]]:
+            return {"skipped": "dispatch among the declared classes is ambiguous for this stream"}
+    ns = {"REGISTERS": used}
+    if st:
+        ns["STORAGE"] = st
+    F = type("F", (RegisterFile,), ns)
+    fr = case["file_route"]
+    f = F.read(content, linesize=fr["linesize"]) if fr["kw"] else F.read(content, fr["linesize"])
+    regs = [r for r in fsup.capped(f.data, 10000) if not (isinstance(r, DefaultRegister) and r.data == "")]
+    got = []
+    for r in regs:
+        d = r.data
+        got.append([used.index(type(r)) if type(r) in used else -1, [codec.enc_val(v) for v in d] if isinstance(d, list) else codec.enc_val(d)])
+    exp = [[used.index(classes[it["def"]]), o["read_data"]] for it, o in zip(case["items"], out)]
+    return {"got": got, "expected": exp}
 
 
 def request(case, obs):
@@ -80,6 +124,9 @@ def judge(case, obs, resp):
         return {"status": "oracle", "why": f"got {show(obs['regs'])}; required {show(resp.get('model'))}"}
     if not resp["agree"]:
         return {"status": "corr", "why": f"model {show(resp.get('model'))} vs implementation {show(obs['regs'])}"}
+    fr = obs.get("file_route")
+    if fr and "got" in fr and fr["got"] != fr["expected"]:
+        return {"status": "oracle", "why": f"re-read through RegisterFile.read(content, linesize{'=' if case['file_route']['kw'] else ' '}{case['file_route']['linesize']}): registers (class index, data) {fr['got']} ; the registers written (and read one by one) {fr['expected']}"}
     return {"status": "ok", "why": ""}
 
 
@@ -217,7 +264,8 @@ def random_case(rng):
             fd0 = defs[i]["fields"][0]
             data[0] = {"i": 7} if fd0["k"] == "int" else ({"s": codec.enc_str("q")} if fd0["k"] == "lit" else (codec.enc_val(1.0) if fd0["k"] == "flt" else data[0]))
         items.append({"def": i, "data": data})
-    return {"storage": {"pos": rng.choice(["", "TEXT"]), "delim": "TEXT", "bin": "BINARY"}[mode], "defs": defs, "items": items, "np_scalars": rng.random() < 0.2}
+    return {"storage": {"pos": rng.choice(["", "TEXT"]), "delim": "TEXT", "bin": "BINARY"}[mode], "defs": defs, "items": items, "np_scalars": rng.random() < 0.2,
+            "file_route": {"linesize": max([d["digits"] for d in defs] + [rng.choice([1, 4, 16, 64, 300])]), "kw": rng.random() < 0.5} if rng.random() < 0.35 else None}
 
 
 def corpus_cases():
